@@ -9,6 +9,7 @@ import (
 	"math/rand"
 	"os"
 	"path/filepath"
+	"runtime/debug"
 	"sync"
 	"time"
 
@@ -109,6 +110,8 @@ type Chain struct {
 	PanicHook func(phase string, height int64, r interface{})
 	Blocks    int64
 	Txs       int64
+	// LastPanicStack holds the goroutine stack of the last Begin/EndBlock panic.
+	LastPanicStack string
 }
 
 type TxResult struct {
@@ -232,6 +235,7 @@ func (c *Chain) begin() {
 	defer func() {
 		if r := recover(); r != nil {
 			if c.PanicHook != nil {
+				c.LastPanicStack = string(debug.Stack())
 				c.PanicHook("BeginBlock", c.Header.Height, r)
 			} else {
 				panic(r)
@@ -264,6 +268,7 @@ func (c *Chain) EndAndCommit() {
 		defer func() {
 			if r := recover(); r != nil {
 				if c.PanicHook != nil {
+					c.LastPanicStack = string(debug.Stack())
 					c.PanicHook("EndBlock", c.Header.Height, r)
 				} else {
 					panic(r)
